@@ -109,7 +109,12 @@ class SharedBufferAPI : public BufferAPI<ArrayT>
      { return !_orig.writable(); }
 
     void *buffer() override
-     { return static_cast<void *> (&_orig.direct_index(0)); }
+    {
+        //  Read through the const accessor: the non-const one refuses
+        // read-only arrays, whose buffers are exported with readonly set.
+        const ArrayT &orig = _orig;
+        return const_cast<void *> (static_cast<const void *> (&orig.direct_index(0)));
+    }
 
   private:
 
@@ -259,9 +264,13 @@ getbuffer (PyObject *obj, Py_buffer *view, int flags)
     BufferAPI<ArrayT> *api   = nullptr;
     bool writableBuffer = ((flags & PyBUF_WRITABLE) == PyBUF_WRITABLE);
     if (writableBuffer && !array.writable())
-        api = new CopyBufferAPI<ArrayT> (array);  
-    else
-        api = new SharedBufferAPI<ArrayT> (array);  
+    {
+        //  A FixedArray "copy" shares the memory of the original, so a
+        // writable view would write into the read-only array.
+        PyErr_SetString (PyExc_BufferError, "Fixed array is read-only");
+        return -1;
+    }
+    api = new SharedBufferAPI<ArrayT> (array);
 
     view->internal   = api;
     view->buf        = api->buffer();
